@@ -1,5 +1,6 @@
 """C03 - inverse() really inverts and acts on the same particles (elementary gate classes).
 Shared machinery: checks/C01.py.  Composite gates and circuits: checks/gates_composite.py."""
+import os
 import numpy as np
 from vlib import coqterm as ct
 from checks import C01 as G
@@ -116,6 +117,10 @@ def run(ctx):
                      "Circuit([g]).inverse() times Circuit([g]) = 1. non-trivial = constant gate or non-zero parameter")
     G.sweep(ctx, "C03", oracle_c03)
     G.run_composite(ctx, "C03")
+    # circuit level ("for every circuit C and register ..."): coq/props/C03i.v + multi-gate circuit oracle
+    if not os.environ.get("VERIF_ELEM_ONLY"):
+        from checks import gates_composite
+        gates_composite.circuit_level(ctx)
 
 
 def replay(ctx, data):
